@@ -132,6 +132,8 @@ def r_units(ctx, view, only=None):
             args = None
             want = None
             subs = []
+            if t["func"]["key"].startswith("std::mem::"):
+                continue   # mem::swap(&mut a.heap, &mut b.heap) exchanges whole tables: nothing is subscripted
             if nm in SUBSCRIPT_CALLS or nm in MAP_SLOT_CALLS:
                 args = fvp.call_args(f, bb)
                 if not args:
@@ -998,7 +1000,8 @@ def r_bounds(ctx, view):
                 what = k(f, "unwrap")
                 ok, why = unwrap_ok(rb, f, bi, args[0])
                 ob(f, t, what, ok, "unwrap(%s): %s" % (term_str(args[0])[:50], why), "unwrap")
-            elif nm in ("swap_remove", "swap", "remove", "insert") and args and component(args[0]) and component(args[0])[0] in ("heap", "qp") and not callee:
+            elif nm in ("swap_remove", "swap", "remove", "insert") and args and component(args[0]) and component(args[0])[0] in ("heap", "qp") and not callee \
+                    and not key.startswith("std::mem::"):
                 comp = component(args[0])[0]
                 for ai in ([1, 2] if nm == "swap" else [1]):
                     what = k(f, "%s.%s" % (comp, nm))
